@@ -1777,6 +1777,7 @@ static int asyncService_setupAsyncClient(KSI_AsyncService *service, const char *
 	int unableToParse = 0;
 	char addr[0xffff];
 	int c;
+	int created = 0;
 
 	if (service == NULL || uri == NULL) {
 		res = KSI_INVALID_ARGUMENT;
@@ -1804,6 +1805,7 @@ static int asyncService_setupAsyncClient(KSI_AsyncService *service, const char *
 			service->impl_free = (void (*)(void*))KSI_AsyncClient_free;
 			res = KSI_TcpAsyncClient_new(service->ctx, (KSI_AsyncClient **)&service->impl);
 			if (res != KSI_OK) goto cleanup;
+			created = 1;
 
 			res = KSI_TcpAsyncClient_setService(service->impl,
 					host, port,
@@ -1822,6 +1824,7 @@ static int asyncService_setupAsyncClient(KSI_AsyncService *service, const char *
 			service->impl_free = (void (*)(void*))KSI_AsyncClient_free;
 			res = KSI_HttpAsyncClient_new(service->ctx, (KSI_AsyncClient **)&service->impl);
 			if (res != KSI_OK) goto cleanup;
+			created = 1;
 
 			res = KSI_HttpAsyncClient_setService(service->impl,
 					strlen(addr) ? addr : uri,
@@ -1839,6 +1842,12 @@ static int asyncService_setupAsyncClient(KSI_AsyncService *service, const char *
 
 	res = KSI_OK;
 cleanup:
+	if (res != KSI_OK && created) {
+		/* The client made by this call could not be configured: do not keep it, a service with a half
+		 * set up client would refuse every later endpoint. */
+		service->impl_free(service->impl);
+		service->impl = NULL;
+	}
 
 	KSI_free(schm);
 	KSI_free(ksi_user);
